@@ -454,12 +454,14 @@ class Gen:
         env = {}
         for _ in range(r.randint(0, 3)):
             pt = r.choice(["int", "int", "long", "float", "boolean", "bit", "string", "int[]", "float[]"])
-            pn = self.fresh("p")
+            # parameter names repeat from function to function (pa, pb, ...): a callee's names are the caller's
+            # names too, and only lexical scoping keeps them apart
+            pn = "p" + "abcdef"[len(params)]
             params.append((pn, pt))
             env[pn] = pt
         self.finals = set()
         if ret == "int[]" and not self.vars_of(env, "int[]"):
-            pn = self.fresh("p")
+            pn = "p" + "abcdef"[len(params)]
             params.append((pn, "int[]"))
             env[pn] = "int[]"
         body = self.stmts(env, r.randint(1, 4), 2, None if ret == "void" else ret)
@@ -520,7 +522,15 @@ class Gen:
                 self.function()
         self.finals = set()
         env = {}
-        main = self.stmts(env, self.r.randint(4, 12), 2)
+        head, tail = [], []
+        if self.r.random() < 0.6:
+            # main owns variables spelled like the parameters of the functions it calls
+            for nm, t in (("pa", "int"), ("pb", self.r.choice(["int", "float", "string"])), ("pc", "long")):
+                if self.r.random() < 0.7:
+                    env[nm] = t
+                    head.append(("decl", t, nm, self.lit(t), False))
+                    tail.append(("echo", ("var", nm, t), t))
+        main = head + self.stmts(env, self.r.randint(4, 12), 2) + tail
         return dict(funcs=self.funcs, main=main, need_step=getattr(self, "need_step", False))
 
 
